@@ -11,7 +11,7 @@
 (*    the same order (lastfx' = fx),                                        *)
 (*  - what the specification says is reported must have been reported on    *)
 (*    the error channel (Write, LogFile) or as error result of the call.    *)
-(* Scope as FlwF.tla: synchronous write modes, no cleanup, no symlink.      *)
+(* Scope as FlwF.tla: synchronous write modes and cleanup, no symlink.      *)
 (***************************************************************************)
 EXTENDS FlwF, Json, IOUtils
 
@@ -34,7 +34,12 @@ Proj(d, f, lens) == { <<n.k, n.i, n.r, n.z,
                         [j \in 1..Len(f[d[n]].ids) |->
                             LET id == f[d[n]].ids[j] IN <<IF Anon(lens[id]) THEN 0 ELSE id, lens[id]>>]>> : n \in DOMAIN d }
 Observed(F) == { <<F[j].k, F[j].i, F[j].r, F[j].z, F[j].recs>> : j \in 1..Len(F) }
-Match == (~E.o) \/ Proj(dir', files', logged') = Observed(E.obs.files)
+\* a .gz next to its original (left by a failed compression) has undefined content: compared without such twins
+TwinP(S) == {x \in S : x[4] /\ \E y \in S : ~y[4] /\ y[1] = x[1] /\ y[2] = x[2] /\ y[3] = x[3]}
+Match == (~E.o) \/ LET P == Proj(dir', files', logged')
+                       O == Observed(E.obs.files)
+                   IN /\ P \ TwinP(P) = O \ TwinP(O)
+                      /\ {<<x[1], x[2], x[3]>> : x \in TwinP(P)} = {<<x[1], x[2], x[3]>> : x \in TwinP(O)}
 \* the effects of the action are the recorded ones, in order
 SameFx == lastfx' = E.fx
 \* error codes on the error channel during the call (the palette message of a start is no error)
